@@ -93,7 +93,7 @@ def rs_req(cfg, hist):
             ops.append({"snap": cyc + (1 if ev[0] == "snap1" else 0)})
         elif ev[0] == "mreset":
             cyc = 0
-            ops.append({"reset": 0})        # the Rust timer has no machine around it here: re-arm at 0 (ISR is cleared by the next op)
+            ops.append({"mreset": 1})
         elif ev[0] == "clr":
             ops.append({"set_isr": 0})
     return {"cmd": "timer", "script": ops}
@@ -208,6 +208,28 @@ def _closure(args):
             "vb": vb, "sample": [list(e) for e in last]}
 
 
+def _after_identity(args):
+    """Histories that continue after a snapshot / machine reset (in the closure BFS such histories are merged with the
+    history before the event, because the reference state is the same): ticks, the event, ticks again."""
+    import itertools
+    cfg, = args
+    h = rb.harness()
+    vb = VB()
+    gs = sorted({1, 2, max(cfg[0], cfg[1], 1)})
+    n = 0
+    hists = []
+    for npre in (1, 2):
+        for pre in itertools.product(gs, repeat=npre):
+            for ev in ("snap", "snap1", "mreset"):
+                for post in itertools.product(gs, repeat=2):
+                    hists.append(tuple(("tick", g) for g in pre) + ((ev,),) + tuple(("tick", g) for g in post))
+    outs = h.batch([rs_req(cfg, x) for x in hists])
+    for hist, o in zip(hists, outs):
+        judge(cfg, hist, run_py(cfg, hist), o, vb)
+        n += 1
+    return {"n": n, "vb": vb}
+
+
 def _directed(args):
     cfg, seqs = args
     h = rb.harness()
@@ -238,6 +260,19 @@ def _percycle(args):
             if cnt != want:
                 vb.add(f"C13/{impl}/per-cycle-count/{t}", f"{impl} cfg={cfg}: {cnt} fires in {ncycles} cycles, expected {want}",
                        {"cfg": list(cfg), "history": [["tick", 1]] * ncycles})
+    # Rust: the same per-cycle run with the instruction-boundary call (finalize_instruction) after every tick, as a
+    # host stepping one-cycle instructions does: boundaries must not move
+    ops = [{"new": [cfg[2], cfg[0], cfg[1]]}]
+    for c in range(1, ncycles + 1):
+        ops += [{"tick": c}, {"finalize": c}]
+    out = h.call({"cmd": "timer", "script": ops})["out"][1:]
+    ticks = out[0::2]
+    for t, p in (("mti", cfg[0]), ("sti", cfg[1])):
+        fired_at = [c + 1 for c, o in enumerate(ticks) if o[t]]
+        want_at = [c for c in range(1, ncycles + 1) if p > 0 and cfg[2] and c % p == 0]
+        if fired_at != want_at:
+            vb.add(f"C13/rust/per-cycle-with-instruction-boundaries/{t}", f"rust cfg={cfg}: ticked every cycle with finalize_instruction after each tick, "
+                   f"{t} fired at {fired_at[:6]}.., expected {want_at[:6]}..", {"cfg": list(cfg), "finalize": True, "n": ncycles})
     return {"n": ncycles, "vb": vb}
 
 
@@ -253,6 +288,10 @@ def run(ctx) -> None:
         gaps = sorted({1, 2, 3, 5, 8, 2 * p, 3 * p + 1})
         jobs.append((cfg, gaps, ["reset", "snap", "snap1", "clr", "mreset"], 14 if ctx.thorough else 9))
     clo = pmap(_closure, jobs)
+    aft = pmap(_after_identity, [(cfg,) for cfg in cfgs])
+    for r in aft:
+        ctx.merge_bucket(r["vb"])
+    ctx.coverage["histories_continued_after_snapshot_or_reset"] = sum(r["n"] for r in aft)
     # default periods: directed gap sequences
     from pce500.emulator import MTI_PERIOD_CYCLES_DEFAULT as PM, STI_PERIOD_CYCLES_DEFAULT as PS
     L = 4 if ctx.thorough else 3
@@ -295,6 +334,13 @@ def run(ctx) -> None:
 
 
 def replay(ctx, w) -> Optional[str]:
+    if w.get("finalize"):
+        rb.build()
+        r = _percycle((tuple(w["cfg"]), w["n"]))
+        for sig, (cnt, wl) in r["vb"].d.items():
+            if "instruction-boundaries" in sig:
+                return wl[0][0]
+        return None
     if w.get("machine"):
         from . import c13_machine
         rb.build()
